@@ -43,6 +43,13 @@ class TailEval(ObjEvaluator):
             if len(A.shape) == 2 and axis == 0:
                 return PermTable([[scalar(r[c]) for r in A.data] for c in range(A.shape[1])])
             raise AnalysisError("genhkl_base: argsort along axis %s of a rank-%d array (line %d)" % (axis, len(A.shape), node.lineno))
+        if name == "lexsort" and len(args) == 1 and isinstance(args[0], (list, tuple)) and args[0] and not kwargs:
+            # the LAST key is the primary one; the others only order rows whose primary keys are equal
+            K = args[0][-1]
+            K = K if isinstance(K, Arr) else materialise(K)
+            if K is None or len(K.shape) != 1:
+                raise AnalysisError("genhkl_base: lexsort with a primary key that is not an explicit vector (line %d)" % node.lineno)
+            return Perm([scalar(x) for x in K.data])
         return ObjEvaluator._np_call(self, name, args, kwargs, node)
 
     def e_Subscript(self, node, env):
